@@ -1325,9 +1325,9 @@ var prop = &harness.Property{
 		{Name: "world", Weight: 1, Run: scenarioWorld},
 	},
 	Real: []string{"bot.Client.JoinServerWithOptions -> join -> joinLogin -> joinConfiguration -> warpConn", "bot.HandleGame/handleBundlePackets/handlePacket", "bot.Events.AddListener/AddGeneric", "bot.pingAndList",
-		"server.Server.AcceptConn -> handshake -> MojangLoginHandler.AcceptLogin (offline) / acceptListPing/listResp", "server.PlayerList", "server.PingInfo", "net.Conn", "net/queue (both)", "net/packet", "offline.NameToUUID"},
+		"server.Server.Listen accept loop (half of the worlds, over simnet.Listener)", "server.Server.AcceptConn -> handshake -> MojangLoginHandler.AcceptLogin (offline) / acceptListPing/listResp", "server.PlayerList", "server.PingInfo", "net.Conn", "net/queue (both)", "net/packet", "offline.NameToUUID"},
 	Stub:        []string{"ConfigHandler (sends optional ping/custom payload, then FinishConfiguration)", "GamePlay (reads the acknowledgement, plays the scripted traffic)", "LoginChecker (refuses chosen names)", "MCDialer (hands out the simulated link)", "links, sync primitives, pools"},
-	NotRun:      []string{"online-mode login (encryption, Mojang HTTP)", "server.KeepAlive", "server.Listen / real TCP"},
+	NotRun:      []string{"online-mode login (encryption, Mojang HTTP)", "server.KeepAlive", "real TCP sockets (the real Server.Listen accept loop runs in half of the worlds over a simulated net.Listener)"},
 	Rule:        "one seeded world per run: 1-3 bots joining one server (threshold, names, queue kinds, 0-200 packets each way with sizes across the threshold, handler sets with tied priorities and random registration batches, bundle layouts incl. empty and back-to-back, optional handler failure, refused players, optional status ping at start/concurrently/after joining, with and without a context deadline) under the seeded scheduler and link schedules. Non-trivial = more context switches than tasks; distinct = (task, park-site) sequence hash",
 	Assumptions: []string{"offline mode only", "bounded channel queues are sized so that they never refuse (refusal is the documented behaviour when full)", "packet ids sent to the bot are within the handler table (ids outside it are hostile input, C08)"},
 }
